@@ -626,6 +626,10 @@ func swapOp(op string) string {
 	return op
 }
 
+// valNameEnv, when set, binds the parameters of a helper to the arguments of one call of it: values
+// inside the helper then print as they would if its body stood at the call (see helperAtoms).
+var valNameEnv map[*ssa.Parameter]ssa.Value
+
 // valName prints an SSA value as a short expression over params, fields and constants.
 func valName(v ssa.Value) string {
 	return valNameD(v, 0)
@@ -646,6 +650,14 @@ func valNameD(v ssa.Value, d int) string {
 		}
 		return x.Value.ExactString()
 	case *ssa.Parameter:
+		if a, bound := valNameEnv[x]; bound {
+			// a helper's parameter, printed as the argument of the call under expansion
+			saved := valNameEnv
+			valNameEnv = nil
+			s := valNameD(a, d+1)
+			valNameEnv = saved
+			return s
+		}
 		return x.Name()
 	case *ssa.FreeVar:
 		return x.Name()
@@ -792,11 +804,73 @@ func guardsAt(b *ssa.BasicBlock) []Atom {
 					if at, ok := condAtom(g.Cond, g.Positive); ok {
 						out = append(out, at.canon())
 					}
+					out = append(out, helperAtoms(g)...)
 				}
 			}
 		}
 	}
 	sort.Slice(out, func(i, j int) bool { return out[i].String() < out[j].String() })
+	return out
+}
+
+// helperAtoms: when a branch condition is the answer of a small boolean helper of the module
+// (`if cb.inRange(x, y)`, `if !t.inPalette(c)`), the comparisons that answer stands for — those of the
+// helper's single return expression, or those leading to its only return of that answer — printed with
+// the helper's parameters replaced by the arguments, i.e. as if the test were written in place.
+func helperAtoms(g rawGuard) []Atom {
+	call, ok := g.Cond.(*ssa.Call)
+	if !ok || call.Parent() == nil {
+		return nil
+	}
+	h := call.Call.StaticCallee()
+	if h == nil || h.Pkg != call.Parent().Pkg || len(h.Blocks) == 0 || h == call.Parent() {
+		return nil
+	}
+	res := h.Signature.Results()
+	if res.Len() != 1 {
+		return nil
+	}
+	if bt, isB := res.At(0).Type().Underlying().(*types.Basic); !isB || bt.Kind() != types.Bool {
+		return nil
+	}
+	var inner []rawGuard
+	rets := returnsOf(h)
+	if len(rets) == 1 {
+		inner = append(inner, expandCond(derefCell(resultOf(rets[0], 0)), g.Positive, 1)...)
+		inner = inner[1:] // not the returned value itself (it is the call, seen from outside)
+	} else {
+		var match []*ssa.Return
+		for _, r := range rets {
+			if v, isC := constBool(derefCell(resultOf(r, 0))); !isC || v == g.Positive {
+				match = append(match, r)
+			}
+		}
+		if len(match) != 1 {
+			return nil
+		}
+		inner = rawGuardsAtDepth(match[0].Block(), 1)
+		if _, isC := constBool(derefCell(resultOf(match[0], 0))); !isC {
+			inner = append(inner, expandCond(derefCell(resultOf(match[0], 0)), g.Positive, 1)[1:]...)
+		}
+	}
+	env := map[*ssa.Parameter]ssa.Value{}
+	for i, pa := range h.Params {
+		if i < len(call.Call.Args) {
+			env[pa] = call.Call.Args[i]
+		}
+	}
+	var out []Atom
+	saved := valNameEnv
+	valNameEnv = env
+	for _, ig := range inner {
+		if _, isCall := ig.Cond.(*ssa.Call); isCall {
+			continue
+		}
+		if at, ok := condAtom(ig.Cond, ig.Positive); ok {
+			out = append(out, at.canon())
+		}
+	}
+	valNameEnv = saved
 	return out
 }
 
